@@ -1,6 +1,11 @@
 (* C14 — stream framing is exact and decoding is bounded by the configured limits.
    Statements only; each is closed by [exact] of a lemma proved in coq/Frame/. *)
-From CV Require Import Frame.Frame Frame.FrameProofs Frame.FrameSafe Frame.FrameStream Frame.FrameThms Frame.FrameAlloc.
+From CV Require Import Frame.Frame.
+From CV Require Import Frame.FrameProofs.
+From CV Require Import Frame.FrameSafe.
+From CV Require Import Frame.FrameStream.
+From CV Require Import Frame.FrameThms.
+From CV Require Import Frame.FrameAlloc.
 Open Scope Z_scope.
 
 (* Any list of messages written by Encoder.Encode (repaired: unaligned segments are refused),
